@@ -51,3 +51,34 @@ Theorem C03_all_phases_complete :
     NoDup (flat_map (phase_keys ow) phs) -> forall q, In q phs -> phase_ok w' ow q.
 Proof. exact rp_all_ok. Qed.
 Print Assumptions C03_all_phases_complete.
+
+(** The controller-level monitor m03 (coq/corr/SetMonitors.v: a member request on phase j implies that the earlier
+    local phases are complete; the phase named as failing is the first incomplete one and nothing behind it is
+    touched). REFUTED as an acceptance claim over all cases: the monitor looks the failing phase up BY NAME, so on an
+    ObjectSet with two phases of the same name whose second one fails it judges the first (complete) one and raises
+    a false alarm on the model itself ([x_dupname_case]). *)
+From PKOCorr Require Import SetCorr SetMonitors SetMonSound SetMonSound2.
+Theorem C03_set_monitor_refuted :
+  exists c : scase, phase_names_unique c = false /\ m03 (set_obs_s c (SetCorr.model_run c)) = false.
+Proof. exact m03_refuted. Qed.
+Print Assumptions C03_set_monitor_refuted.
+
+(** Partial (excluded: active ObjectSets with pairwise distinct local keys - the only ones the monitor judges - in which
+    two phases carry the same name): otherwise the monitor accepts every pass of the model. *)
+Theorem C03_set_monitor_sound_partial :
+  forall c : scase, phase_names_unique c = true -> m03 (set_obs_s c (SetCorr.model_run c)) = true.
+Proof. exact m03_sound_partial. Qed.
+Print Assumptions C03_set_monitor_sound_partial.
+
+Example C03_set_monitor_hypothesis_satisfiable :
+  phase_names_unique x_names_case = true /\
+  map (fun s => let '(_, _, fph, _) := s in fph) (statuses (set_obs_s x_names_case (SetCorr.model_run x_names_case))) = [Some 2%N].
+Proof. exact m03_hypothesis_satisfiable. Qed.
+Print Assumptions C03_set_monitor_hypothesis_satisfiable.
+
+(** The delegated part of the C03 check (m03d = C15Corr.m_gate && C15Corr.m_relay: a write to phase j only after every
+    earlier delegated phase's phase object was seen Available for its generation in this pass; Available=True newly
+    reported only if every delegated phase's phase object, as last obtained, is) accepts every pass of the model. *)
+Theorem C03_set_monitor_delegated_sound : forall c : scase, m03d (set_obs_s c (SetCorr.model_run c)) = true.
+Proof. exact m03d_sound. Qed.
+Print Assumptions C03_set_monitor_delegated_sound.
